@@ -603,6 +603,34 @@ pub fn huge(with_storage: bool) -> BoxedStrategy<Vec<u8>> {
     prop_oneof![2 => many, 1 => junk_first].boxed()
 }
 
+/// well-formed messages of every size (also exactly 65535 bytes) in which some texts (names, units, strings) fill
+/// their announced size without the terminating NUL — what senders that do not count the terminator emit
+pub fn unterminated(with_storage: bool) -> BoxedStrategy<Vec<u8>> {
+    let st = if with_storage { g::StorageMode::Always } else { g::StorageMode::Never };
+    (g::message(g::MsgParams { storage: st, ..Default::default() }), any::<u64>(), g::suffix())
+        .prop_map(|(m, sel, sfx)| {
+            let (mut b, map) = refcodec::encode_with_map(&m);
+            let mut k = 0u32;
+            for f in map.iter().filter(|f| matches!(f.role, refcodec::Role::Text)) {
+                if f.end > f.start && b[f.end - 1] == 0 {
+                    // the last text always, the others by the selector bits
+                    if (sel >> (k % 64)) & 1 == 1 {
+                        b[f.end - 1] = b'x';
+                    }
+                    k += 1;
+                }
+            }
+            if let Some(f) = map.iter().filter(|f| matches!(f.role, refcodec::Role::Text)).last() {
+                if f.end > f.start && b[f.end - 1] == 0 && sel & (1 << 63) != 0 {
+                    b[f.end - 1] = b'x';
+                }
+            }
+            b.extend(sfx);
+            b
+        })
+        .boxed()
+}
+
 /// periodic inputs: one short unit repeated thousands of times (20 KB .. 1.2 MB) — a zero-filled or otherwise regular
 /// region of a trace file: storage markers followed by blank or low-entropy bytes, a small (possibly damaged) record
 /// over and over, a few arbitrary bytes over and over
@@ -659,6 +687,7 @@ pub fn hostile(with_storage: bool) -> BoxedStrategy<Vec<u8>> {
         20 => large(with_storage),
         1 => huge(with_storage),
         4 => periodic(with_storage),
+        30 => unterminated(with_storage),
     ]
     .boxed()
 }
